@@ -344,7 +344,86 @@ Section Loop.
           { destruct H as [<-|Hin]; [intros C; apply I1, Hpot, C | apply (F1 l0 Hin)]. }
       + cbn [a_raised] in Hr. discriminate.
   Qed.
+  (* the stuck counter never decreases, and a stuck candidate the solver does not refute increments it *)
+  Lemma step_leaf_stuck : forall codes l a a',
+    step codes l a = Some a' ->
+    a_stuck a <= a_stuck a' /\
+    (cls_of codes l = CL_STUCK -> stuck_counts (solve_low (l_query l)) = true -> a_stuck a < a_stuck a').
+  Proof.
+    intros codes l a a' H. unfold step, step_leaf in H. unfold cls_of, panic_found.
+    assert (G : forall c : Z,
+      Some (if c =? CL_POTENTIAL then
+              mkAcc (a_results a ++ [solve_assert (l_query l)]) (a_stuck a) (a_normal a) (a_raised a) (a_width_warn a)
+            else if c =? CL_STUCK then
+              (if stuck_counts (solve_low (l_query l))
+               then mkAcc (a_results a) (a_stuck a + 1) (a_normal a) (a_raised a) (a_width_warn a)
+               else a)
+            else if c =? CL_NORMAL then
+              mkAcc (a_results a) (a_stuck a) (a_normal a + 1) (a_raised a) (a_width_warn a)
+            else a) = Some a' ->
+      a_stuck a <= a_stuck a' /\
+      (c = CL_STUCK -> stuck_counts (solve_low (l_query l)) = true -> a_stuck a < a_stuck a')).
+    { intros c Hc. injection Hc as <-.
+      destruct (c =? CL_POTENTIAL) eqn:C1.
+      { apply Z.eqb_eq in C1. cbn [a_stuck]. split; [lia|]. intros C2. rewrite C1 in C2. unfold CL_POTENTIAL, CL_STUCK in C2. discriminate C2. }
+      destruct (c =? CL_STUCK) eqn:C2.
+      { destruct (stuck_counts (solve_low (l_query l))) eqn:S; cbn [a_stuck]; split; try lia; intros _ D; try discriminate D; lia. }
+      apply Z.eqb_neq in C2.
+      destruct (c =? CL_NORMAL); cbn [a_stuck]; split; try lia; intros C3; contradiction. }
+    destruct (is_panic_of (l_err Q l) (l_data l) codes) eqn:E; try discriminate H; apply G; exact H.
+  Qed.
+
+  Lemma loop_stuck_mono : forall codes width ls pid a0, a_stuck a0 <= a_stuck (lp codes width pid ls a0).
+  Proof.
+    intros codes width ls. induction ls as [|l ls IH]; intros pid a0; unfold lp in *; cbn [loop]; [lia|].
+    destruct (step_leaf Q solve_assert solve_low codes l a0) as [a'|] eqn:S; [|cbn [a_stuck]; lia].
+    destruct (step_leaf_stuck _ _ _ _ S) as [M _].
+    destruct (width_cut width pid); [cbn [a_stuck]; lia|].
+    specialize (IH (pid + 1) a'). lia.
+  Qed.
+
+  Lemma loop_stuck_counted : forall codes width ls pid a0,
+    a_raised (lp codes width pid ls a0) = false ->
+    a_width_warn (lp codes width pid ls a0) = false ->
+    forall l, In l ls -> cls_of codes l = CL_STUCK -> stuck_counts (solve_low (l_query l)) = true ->
+      a_stuck a0 < a_stuck (lp codes width pid ls a0).
+  Proof.
+    intros codes width ls. induction ls as [|l ls IH]; intros pid a0 Hr Hw l0 Hin Hc Hs; [destruct Hin|].
+    unfold lp in *. cbn [loop] in *.
+    destruct (step_leaf Q solve_assert solve_low codes l a0) as [a'|] eqn:S; [|cbn [a_raised] in Hr; discriminate].
+    destruct (width_cut width pid) eqn:W; [cbn [a_width_warn] in Hw; discriminate|].
+    destruct (step_leaf_stuck _ _ _ _ S) as [M1 M2].
+    destruct Hin as [<-|Hin].
+    - specialize (M2 Hc Hs). pose proof (loop_stuck_mono codes width ls (pid + 1) a') as M3. unfold lp in M3. lia.
+    - specialize (IH (pid + 1) a' Hr Hw l0 Hin Hc Hs). lia.
+  Qed.
 End Loop.
+
+(* a PASS without --width warning: every reported path that is stuck (output data None, or an internal
+   HalmosException -- wherever in the call tree it was raised) was either an assertion-failure candidate or
+   refuted by the solver *)
+Theorem pass_no_stuck : forall Q sa sl codes width (e : exploration Q),
+  r_exit (run_test Q sa sl codes width e) = EX_PASS ->
+  r_warn_width (run_test Q sa sl codes width e) = false ->
+  forall l, In l (ex_leaves e) -> is_stuck Q l = true ->
+    panic_found Q codes l = true \/ global_fail (l_ctx l) = true \/ sl (l_query l) = S_UNSAT.
+Proof.
+  intros Q sa sl codes width e Hexit Hw l Hin Hst.
+  unfold run_test in *. cbn [r_exit r_warn_width] in *.
+  set (a := loop Q sa sl codes width 0 (ex_leaves e) acc0) in *.
+  destruct (a_raised a) eqn:Hr; [unfold EX_EXCEPTION, EX_PASS in Hexit; discriminate|].
+  apply verdict_pass in Hexit. destruct Hexit as [_ [_ [_ [Hstuck _]]]].
+  destruct (panic_found Q codes l) eqn:P; [left; reflexivity|].
+  destruct (global_fail (l_ctx l)) eqn:F; [right; left; reflexivity|].
+  right; right.
+  destruct (Z.eq_dec (sl (l_query l)) S_UNSAT) as [U|U]; [exact U|exfalso].
+  assert (C : cls_of Q codes l = CL_STUCK).
+  { unfold cls_of. rewrite P, F, Hst. unfold classify, CL_STUCK. destruct (has_error Q l); reflexivity. }
+  assert (S : stuck_counts (sl (l_query l)) = true).
+  { unfold stuck_counts. apply negb_true_iff, Z.eqb_neq. exact U. }
+  pose proof (loop_stuck_counted Q sa sl codes width (ex_leaves e) 0 acc0 Hr Hw l Hin C S) as L.
+  fold a in L. cbn [a_stuck acc0] in L. lia.
+Qed.
 
 (* ------------------------------------------------------------------ solve_end_to_end *)
 
@@ -550,23 +629,29 @@ Section Setup.
   Variable Q : Type.
   Variable solve_low : Q -> Z.
 
+  Lemma setup_path_ok_spec : forall e st, setup_path_ok e st = true <-> e = false.
+  Proof. intros e st. unfold setup_path_ok. destruct e; cbn; split; intros H; congruence. Qed.
+
+  Lemma setup_keeps_spec : forall r, setup_keeps r = true <-> r <> S_UNSAT.
+  Proof. intros r. unfold setup_keeps, S_UNSAT. rewrite negb_true_iff, Z.eqb_neq. tauto. Qed.
+
   Theorem setup_select_unique : forall paths p,
     setup_select Q solve_low paths = SetupOk p ->
     In p paths /\ sp_error p = false /\
     forall p', In p' paths -> sp_error p' = false -> p' = p \/ solve_low (sp_query p') = S_UNSAT.
   Proof.
     intros paths p H. unfold setup_select in H.
-    set (ok := filter (fun p => negb (sp_error p)) paths) in *.
+    set (ok := filter (fun p => setup_path_ok (sp_error p) (sp_stuck p)) paths) in *.
     assert (Hok : forall x, In x ok <-> In x paths /\ sp_error x = false).
-    { intros x. unfold ok. rewrite filter_In. rewrite negb_true_iff. tauto. }
+    { intros x. unfold ok. rewrite filter_In. rewrite setup_path_ok_spec. tauto. }
     destruct ok as [|p1 [|p2 rest]] eqn:E.
     - discriminate.
     - inversion H; subst p1. destruct (proj1 (Hok p) (or_introl eq_refl)) as [A B].
       repeat split; auto. intros p' Hin He. left.
       destruct (proj2 (Hok p') (conj Hin He)) as [<-|[]]. reflexivity.
-    - set (f := filter (fun p => negb (solve_low (sp_query p) =? S_UNSAT)) (p1 :: p2 :: rest)) in *.
+    - set (f := filter (fun p => setup_keeps (solve_low (sp_query p))) (p1 :: p2 :: rest)) in *.
       assert (Hf : forall x, In x f <-> In x (p1 :: p2 :: rest) /\ solve_low (sp_query x) <> S_UNSAT).
-      { intros x. unfold f. rewrite filter_In, negb_true_iff, Z.eqb_neq. tauto. }
+      { intros x. unfold f. rewrite filter_In, setup_keeps_spec. tauto. }
       destruct f as [|q1 [|q2 rest']] eqn:F; try discriminate.
       inversion H; subst q1.
       destruct (proj1 (Hf p) (or_introl eq_refl)) as [A B].
@@ -575,7 +660,17 @@ Section Setup.
       destruct (Z.eq_dec (solve_low (sp_query p')) S_UNSAT) as [U|U]; [right; exact U|left].
       destruct (proj2 (Hf p') (conj (proj2 (Hok p') (conj Hin He)) U)) as [<-|[]]. reflexivity.
   Qed.
+
 End Setup.
+
+(* GENUINE DEFECT: the success test of setup() looks at `output.error` only.  A path of setUp stopped by an
+   internal error inside a SUB-CALL has no error at the top level (its output data is None: is_stuck), so it
+   counts as a successful path -- and when it is the only one it becomes the state every test starts from.
+   `setup_select ... = SetupOk p -> sp_stuck p = false` is false of the faithful model: *)
+Theorem setup_select_stuck_path_refuted :
+  exists (paths : list (spath unit)) p,
+    setup_select unit (fun _ => S_SAT) paths = SetupOk p /\ sp_stuck p = true.
+Proof. exists [mkSpath false true tt], (mkSpath false true tt). split; reflexivity. Qed.
 
 (* ------------------------------------------------------------------ which loop-bound logs are reported (C10) *)
 
@@ -586,10 +681,33 @@ Proof.
     auto using orb_true_r.
 Qed.
 
-(* the logs of the private SEVM of run_target_function are read by nobody *)
-Lemma loop_bound_in_target_not_reported :
-  exists r, In true (iv_targets r) /\ loop_bound_warned r = false.
-Proof. exists (mkInvRun false [true] false). split; [left; reflexivity | reflexivity]. Qed.
+(* run_target_function reports the log of its private SEVM once the transaction has been explored:
+   a bounded loop in ANY of the transactions of an invariant run is warned about, and nothing else is *)
+Lemma loop_bound_in_target_reported : forall r,
+  In true (iv_targets r) -> loop_bound_warned r = true.
+Proof.
+  intros r H. unfold loop_bound_warned, target_warns_loop_bound.
+  assert (E : existsb (fun b : bool => true && b) (iv_targets r) = true).
+  { apply existsb_exists. exists true. split; [exact H | reflexivity]. }
+  rewrite E. rewrite orb_true_r. reflexivity.
+Qed.
+
+Theorem loop_bound_warned_iff : forall r,
+  loop_bound_warned r = true <-> (iv_setup r = true \/ In true (iv_targets r) \/ iv_test r = true).
+Proof.
+  intros r. split.
+  - unfold loop_bound_warned. intros H.
+    apply orb_true_iff in H. destruct H as [H|H].
+    + apply orb_true_iff in H. destruct H as [H|H].
+      * apply andb_true_iff in H. tauto.
+      * right; left. apply existsb_exists in H. destruct H as [b [Hin Hb]].
+        apply andb_true_iff in Hb. destruct Hb as [_ ->]. exact Hin.
+    + apply andb_true_iff in H. tauto.
+  - intros [H|[H|H]].
+    + apply loop_bound_setup_and_test_reported. left. exact H.
+    + apply loop_bound_in_target_reported. exact H.
+    + apply loop_bound_setup_and_test_reported. right. exact H.
+Qed.
 
 Lemma width_cut_spec : forall width pid, width_cut width pid = true <-> (width <> 0 /\ pid >= width).
 Proof.
